@@ -1133,7 +1133,6 @@ impl Parser<'_, '_> {
 
         let start_span = self.take(Token::FStringStart)?;
 
-        // TODO: we need to properly unescape the `{{` and `}}`
         while let Some((part, span)) = self.lexer.f_string_part() {
             let (FStringToken::StringEnd(s)
             | FStringToken::StringIntermediate(s)) = &part;
@@ -1144,8 +1143,7 @@ impl Parser<'_, '_> {
                     start: span.start,
                     end: span.end,
                 };
-                let s = unescape_str(s, span)?;
-                let s = s.replace("{{", "{").replace("}}", "}");
+                let s = unescape_f_str(s, span)?;
                 parts.push(self.spans.add(span, FStringPart::String(s)));
             }
 
@@ -1184,11 +1182,39 @@ fn unescape_char(s: &str, span: Span) -> ParseResult<char> {
 }
 
 fn unescape_str(s: &str, span: Span) -> ParseResult<String> {
+    unescape_str_inner(s, span, false)
+}
+
+/// Unescape the text of an f-string, where `{{` and `}}` stand for a single
+/// brace. Only braces that are written literally are treated that way, not
+/// the ones that are the result of an escape sequence such as `\x7b`.
+fn unescape_f_str(s: &str, span: Span) -> ParseResult<String> {
+    unescape_str_inner(s, span, true)
+}
+
+fn unescape_str_inner(
+    s: &str,
+    span: Span,
+    doubled_braces: bool,
+) -> ParseResult<String> {
     let mut unescaped = String::new();
     let mut errors = Vec::new();
+    // The literal brace we have just seen, if it is the first of a pair
+    let mut pending = None;
     rustc_literal_escaper::unescape_str(s, |range: Range<usize>, res| {
         match res {
-            Ok(ch) => unescaped.push(ch),
+            Ok(ch) => {
+                let literal_brace = doubled_braces
+                    && range.len() == 1
+                    && (ch == '{' || ch == '}');
+                if literal_brace && pending == Some(ch) {
+                    // The second brace of `{{` or `}}`
+                    pending = None;
+                    return;
+                }
+                pending = literal_brace.then_some(ch);
+                unescaped.push(ch)
+            }
             Err(e) => errors.push((range, e)),
         }
     });
